@@ -22,6 +22,13 @@ Theorem C20_abort_surfaces : forall c ixa ixs ixc acc_b acc_r acc_c rest, ixa <>
   fst (h_sysinfo ixc tt ixa (VRec (VInt c :: rest))) = Some (RErr (EAborted c)).
 Proof. exact abort_surfaces. Qed.
 
+(* the ninth exchange, the query for a dangling pre-authorisation that opens every clean-up chain (since the fix of F11): its
+   answer is an abort-class packet carrying 0xB8 by protocol design; ANY other result code aborts the query, the chain and the call
+   with that code *)
+Theorem C20_pending_query_abort_surfaces : forall c ixa rest, c <> 184 ->
+  fst (h_pending ixa tt ixa (VRec (VInt c :: rest))) = Some (RErr (EAborted c)).
+Proof. exact pending_query_abort_surfaces. Qed.
+
 (* a handler's verdict on an abort ends the loop: what came before cannot turn it into a success *)
 Theorem C20_abort_ends_the_loop : forall (A B : Type) (h : A -> N -> value -> option (cres B) * A) fin acc i v r res acc',
   h acc i v = (Some res, acc') -> run_handler h fin acc ((i, v) :: r) = res.
@@ -144,6 +151,7 @@ Print Assumptions C20_end_of_day_abort_anywhere.
 Print Assumptions C20_commit_abort_anywhere.
 Print Assumptions C20_cancel_abort_anywhere.
 Print Assumptions C20_abort_surfaces.
+Print Assumptions C20_pending_query_abort_surfaces.
 Print Assumptions C20_abort_ends_the_loop.
 Print Assumptions C20_exceptions_are_known_codes.
 
